@@ -45,25 +45,25 @@ P = {
 }
 # what the third session added to the workloads (appended to the descriptions above)
 EXTRA = {
- "C01": "; hazard sets with derivation chains of 1200-2700 identities (time that grows faster than the square of the chain is a budget overrun); hazard templates with member lists that collide in compared types; reads through the nodes in Entry.Exts and Entry.Extra",
- "C02": "; random texts contain statements of real YANG, keyword and argument, in every quoting style",
- "C03": "; one tree in ten has a statement with 10-50 substatements, shuffled; family processed: 6 k / 100 k generated sets whose syntax trees are walked as built and again after Process",
- "C04": "; three sets in ten are processed twice, processed twice with the entry cache dropped in between, processed first on a part of the files, or get a module first as an older revision; late templates for an augment of a choice that brings a choice, a type given to a node that is no leaf, a chain of augments behind an implicit case, augments written in submodules",
- "C05": "; twenty shapes now (one identity in several revisions, late augments in conflict, source names with colons); one repetition in eight has a processing run after every load, one in eight a repeated run; shape 19 (orphan submodules chained by broken links), sibling names that differ in case only for the tool",
- "C06": "; an unresolved name whose position lies inside a grouping is a C06 violation too",
+ "C01": "; hazard sets with derivation chains of 1200-2700 identities (time that grows faster than the square of the chain is a budget overrun); hazard templates with member lists that collide in compared types; reads through the nodes in Entry.Exts and Entry.Extra; templates of faults written in submodules, typedef'd unions that name themselves twice, required substatements present only as extensions; Find, FindModuleByPrefix and FindGrouping (nil visited set) called on every node the trees hand out",
+ "C02": "; random texts contain statements of real YANG, keyword and argument, in every quoting style; concatenations of 14-53 pieces",
+ "C03": "; one tree in ten has a statement with 10-50 substatements, shuffled; family processed: 6 k / 100 k generated sets whose syntax trees are walked as built and again after Process; texts with a second top-level statement",
+ "C04": "; three sets in ten are processed twice, processed twice with the entry cache dropped in between, processed first on a part of the files, or get a module first as an older revision; late templates for an augment of a choice that brings a choice, a type given to a node that is no leaf, a chain of augments behind an implicit case, augments written in submodules; templates for an include of a submodule that belongs to another module, a late augment and a doubled not-supported written in a submodule",
+ "C05": "; twenty shapes now (one identity in several revisions, late augments in conflict, source names with colons); one repetition in eight has a processing run after every load, one in eight a repeated run; shape 19 (orphan submodules chained by broken links), sibling names that differ in case only for the tool; shape 20 (an error in the tree of only one of two loaded revisions)",
+ "C06": "; an unresolved name whose position lies inside a grouping is a C06 violation too; the constraints of copies: when, must, status and reference of the definition and of every use, compared per copy",
  "C07": "; templates for chains of augments behind an implicit case, relative paths that lead into the augment itself, augments without target written in a submodule; one recorded finding (a path that names an implicit case reaches the member)",
- "C08": "; inapplicable deviates on nodes that are removed afterwards, targets named without choice and case, a type for a node that is no leaf, units replaced by the empty string; ordered-by user, deviate statements in four layouts, DefaultValues after deviations of mandatory",
+ "C08": "; inapplicable deviates on nodes that are removed afterwards, targets named without choice and case, a type for a node that is no leaf, units replaced by the empty string; ordered-by user, deviate statements in four layouts, DefaultValues after deviations of mandatory; a case of a choice with a default removed; deviating modules loaded from files with submodules fetched by the run; a newer submodule revision that nothing includes loaded beside the pinned ones",
  "C09": "; family longchains: 96 / 960 derivation chains of 3 to 13000 (thorough 30000) typedefs in every declaration order, over one or two modules; the tree family also runs the process modes listed under C04; patterns that repeat an inherited posix-pattern, references behind a declared but unbound prefix",
- "C10": "; one chain in five of depth two and more is spread over modules in which two files bind one prefix to different modules; chains whose last restriction arrives through a deviate replace",
- "C11": "; every third load has a processing run after each file, every third a repeated run, one in six a module that arrives first as an older revision; an identityref must point at the identity object of the latest revision; a revision-pinned family (bases and identityrefs through imports that name a revision), bases named twice, submodules that import under the prefix of their module",
+ "C10": "; one chain in five of depth two and more is spread over modules in which two files bind one prefix to different modules; chains whose last restriction arrives through a deviate replace; literals with more fraction digits than the type has",
+ "C11": "; every third load has a processing run after each file, every third a repeated run, one in six a module that arrives first as an older revision; an identityref must point at the identity object of the latest revision; a revision-pinned family (bases and identityrefs through imports that name a revision), bases named twice, submodules that import under the prefix of their module; a dangling base reached through a pinned revision with includes",
  "C12": "; header sets in which a module changes its namespace from one revision to the next; include statements in shuffled order",
- "C13": "; rejected two-module texts that begin with a newer revision of a loaded module; splits with identities in the submodules and with includes that only another submodule states; module names with dots in the files family, an augment in every revision of a submodule in the includes family",
- "C14": "; every third schema is processed twice; the maps returned by NameMap and ValueMap are edited and the enumeration read again; member lists as the second of two same-kind members of a union",
- "C16": "; the single error of a set must name the faulty statement and no other position; fault kinds for a range outside a typedef's own range and for identity bases that do not resolve; unterminated later pieces of a concatenation, lone slash tokens, fault kinds for deviates that cannot be applied and identity bases",
+ "C13": "; rejected two-module texts that begin with a newer revision of a loaded module; splits with identities in the submodules and with includes that only another submodule states; module names with dots in the files family, an augment in every revision of a submodule in the includes family; a rejected read before the search path is set up; paths of on-demand input and output in the dump",
+ "C14": "; every third schema is processed twice; the maps returned by NameMap and ValueMap are edited and the enumeration read again; member lists as the second of two same-kind members of a union; member lists that arrive through a deviate replace",
+ "C16": "; the single error of a set must name the faulty statement and no other position; fault kinds for a range outside a typedef's own range and for identity bases that do not resolve; unterminated later pieces of a concatenation, lone slash tokens, fault kinds for deviates that cannot be applied and identity bases; unusual source names (blanks, colons, percent signs)",
  "C17": "; paths that leave out the choices and cases above a node (must name nothing unless the reference tree has such a node), data nodes named input and output, import prefixes that read like module names, absolute lookups from an input or output created on demand; paths that begin with the name of the module as a step",
- "C18": "; typedefs of unions and identityrefs against a late revision, late submodule revisions, a search path that grows by a later read; fetched modules that augment, files repaired after a rejected read, one witness history of a recorded finding",
- "C19": "; sets with texts the syntax tree builder refuses, sets loaded from files whose import names a revision that is not there (also as the shared set of the reader rounds)",
- "C20": "; underlying writers that accept only part of the output without an error; writers that go on after a short write without error",
+ "C18": "; typedefs of unions and identityrefs against a late revision, late submodule revisions, a search path that grows by a later read; fetched modules that augment, files repaired after a rejected read, one witness history of a recorded finding; queries after a clean run compared with the same queries before a rejected load, a good read next to a rejected file, rejected texts that start with a newer revision, a fetched file that holds two modules and is processed twice",
+ "C19": "; sets with texts the syntax tree builder refuses, sets loaded from files whose import names a revision that is not there (also as the shared set of the reader rounds); repeated defaults in every set and imports of modules that are nowhere",
+ "C20": "; underlying writers that accept only part of the output without an error; writers that go on after a short write without error; prefixes that look like template directives; a bufio.Writer in its error state underneath",
 }
 LEVEL = {"C20": "fault_enumeration"}
 checks = []
